@@ -36,6 +36,10 @@ func c04Extra(t harness.Tree, probe map[string]fileProbe) []harness.Req {
 		if cur != "" {
 			// a stale tag: well-formed, differs from the current one in the last character
 			hs = append(hs, cur[:len(cur)-2]+"0\"", cur[:len(cur)-1]+"0\"")
+			// the current tag in another letter case: another tag (entity tags are compared octet by octet)
+			if up := strings.ToUpper(cur); up != cur {
+				hs = append(hs, up)
+			}
 		}
 		for _, im := range hs {
 			for _, inm := range hs {
@@ -96,6 +100,12 @@ func c04Codec(t string, others []string) (clause, detail string) {
 		}
 	} else if err != nil || !ok {
 		return "codec-match-equal", fmt.Sprintf("MatchETag(%q)=%v,%v", t, ok, err)
+	}
+	// letter case and compatibility variants of the tag are other tags
+	for _, v := range []string{strings.ToUpper(t), strings.ToLower(t), strings.ReplaceAll(t, "k", "\u212a"), strings.ReplaceAll(t, "a", "A")} {
+		if v != t {
+			others = append(append([]string(nil), others...), v)
+		}
 	}
 	for _, o := range others {
 		if o == t {
